@@ -27,7 +27,7 @@ NOTE = ["Jinja2 and PyYAML are not modelled: they enter through the rendered and
 
 PLAIN_NAMES = [("nordicsemi.com", "nRF54H20_sample_root"), ("acme.example", "my_class-1"), ("Vendor Name", "class.with.dots")]
 NONASCII_NAMES = [("müller-geräte.example", "Ölpumpe_rad"), ("bücher.example", "Wärmepumpe_app"), ("中文.example", "クラス")]
-YAML_NAMES = [("123", "true"), ("null", "~"), ("a: b", "x #y"), ("0x10", "[a]"), (" lead", "trail "), ("", "1_000"), ("2024-01-01", "é中"), ('q"uote', "back\\slash")]
+YAML_NAMES = [("123", "true"), ("null", "~"), ("a: b", "x #y"), ("0x10", "[a]"), (" lead", "trail "), ("Bob's sensor", "o'neill.example"), ("''", "it''s"), ("", "1_000"), ("2024-01-01", "é中"), ('q"uote', "back\\slash")]
 
 
 def cid(vendor, cls):
@@ -340,6 +340,31 @@ def script_cases(res):
             want = ncs_build.render_template(tpl, cfg)
             if open(out).read() != want:
                 res.spec_failures.append({"script": "ncs/build.py template", "what": "the file the build script wrote is not the rendering of the template for this configuration"})
+            # as the NCS build does it: the artifacts folder given *relative* to the build directory, the rendered YAML lying inside that folder, the
+            # files it names spelled relative to the build directory, and `create` started from the build directory (C19-p)
+            fw = bytes(range(200))
+            open(os.path.join(art, "fw.bin"), "wb").write(fw)
+            import yaml as _yaml
+            dsc = {"SUIT_Envelope_Tagged": {"suit-authentication-wrapper": {"SuitDigest": {"suit-digest-algorithm-id": "cose-alg-sha-256"}},
+                                            "suit-manifest": {"suit-manifest-version": 1, "suit-manifest-sequence-number": 1,
+                                                              "suit-install": [{"suit-directive-override-parameters": {"suit-parameter-image-digest": {
+                                                                  "suit-digest-algorithm-id": "cose-alg-sha-256", "suit-digest-bytes": {"file": "DFU/fw.bin"}},
+                                                                  "suit-parameter-image-size": {"file": "./DFU/fw.bin"}}}]},
+                                            "suit-integrated-payloads": {"#fw": "DFU/fw.bin"}}}
+            for form, (inp, outp) in {"relative": ("DFU/in.yaml", "DFU/out.suit"), "dot-relative": ("./DFU/in.yaml", "./DFU/out2.suit")}.items():
+                _yaml.dump(dsc, open(os.path.join(place, inp), "w"), sort_keys=False)
+                rc2, log2 = common.run_cli(["create", "--input-file", inp, "--output-file", outp], place)
+                res.case(["create-in-artifacts-folder", form, k], nontrivial=True)
+                res.count("script:create-in-relative-artifacts-folder")
+                okf = os.path.join(place, outp)
+                if rc2 != 0 or not os.path.exists(okf):
+                    res.spec_failures.append({"script": "suit-generator create", "cwd": "build directory", "input_file": inp, "references": "DFU/fw.bin (relative to the build directory)",
+                                              "what": f"creating an envelope from a description inside a relative artifacts folder failed (exit {rc2})", "log": log2[-400:]})
+                    continue
+                import cbor2 as _c
+                env_ = _c.loads(open(okf, "rb").read()).value
+                if env_.get("#fw") != fw:
+                    res.spec_failures.append({"script": "suit-generator create", "input_file": inp, "what": "the integrated payload is not the content of the file named relative to the build directory"})
     finally:
         for place in places:
             shutil.rmtree(place, ignore_errors=True)
